@@ -100,16 +100,16 @@ def catalogue(tier: str):
                                 E(XP('f'), 'b2')])], 1, 'FAM(PT30M)',
              {'queues': q1('a', 'e', 'f'), 'families': {'FAM': ['e', 'f']}},
              ('e',), (), ('expire',)),
-            # two cycles, inter-cycle expire child, queue limit 1
-            ('two-cycles', [('P1', [N('a'), E(XP('e', -1), 'b'),
-                                    E(A('e'), 'c')])], 2, 'e(PT1H)',
-             {'queues': q1('a', 'e')}, ('e',), (), ('expire',)),
+            # two cycles, inter-cycle expire child: both instances of e are
+            # overdue at boot; b@2nd cycle is the only child within bounds
+            ('two-cycles', [('P1', [N('e'), E(XP('e', -1), 'b')])], 2,
+             'e(-PT1H)', {}, (), (), ('expire',)),
             ('retry-try-jumps', [('P1', base)], 1, 'e(PT1H)',
              {'tasks': {'e': {'retries': {'exec': 1}}}}, ('e',), ('e',),
              ('expire', 'try')),
             ('queued-L2', [('P1', [N('a'), N('a2')] + base
                             + [E(XP('f'), 'b')])], 1, 'e(PT1H), f(PT1H)',
-             {'queues': q1('a', 'a2', 'e', 'f', L=2)}, ('e',), (),
+             {'queues': q1('a', 'a2', 'e', 'f', L=2)}, (), (),
              ('expire',)),
         ]
     out = []
@@ -123,13 +123,20 @@ def catalogue(tier: str):
 
 
 def make_factory(spec):
-    insts = [f'{point_str(i)}/{t}' for t in spec['ops_on']
-             for i in range(spec['icp_i'], spec['fcp_i'] + 1)]
+    # 'e' = trigger and hold commands on every instance of e;
+    # 'e:trigger' = trigger commands only
+    trig, hold = [], []
+    for item in spec['ops_on']:
+        t, _, only = item.partition(':')
+        for i in range(spec['icp_i'], spec['fcp_i'] + 1):
+            trig.append(f'{point_str(i)}/{t}')
+            if not only:
+                hold.append(f'{point_str(i)}/{t}')
 
     def ops(w):
         return ([('force_trigger_tasks', {'tasks': [i], 'flow': ['all']})
-                 for i in insts]
-                + [('hold', {'tasks': [i]}) for i in insts])
+                 for i in trig]
+                + [('hold', {'tasks': [i]}) for i in hold])
 
     def factory():
         return ClockProfile(
